@@ -155,3 +155,81 @@ def alias_obligations(pid):
             w = None
     return [dict(id=f"{pid}.S8e[__get_field_alias]/enumerated", status="proved" if not probs else "refuted", unit=f"CodeBuilder.__get_field_alias on {n} argument shapes",
                  backend="enumeration", detail="; ".join(probs)[:600], witness=w)]
+
+
+# ---------------------------------------------------------------------------------------------
+# S14: CodeBuilder.get_field_default_literal - the text spliced into the omit_default guard `value != <literal>`
+# ---------------------------------------------------------------------------------------------
+def default_literal_obligations(pid):
+    """for a default value v the guard is `value != L` with L = the literal's value: contract  (w != L) == (w != v)  for every w,
+    checked for w in {v itself, an equal copy, another value of the same type, None, 0} over one default of every kind the function
+    distinguishes (it branches on the type of the default only) and of the kinds it does not (bound by name)."""
+    import dataclasses
+    import datetime
+    import decimal
+    import enum
+    import math
+    import typing
+
+    from mashumaro.core.meta.code.builder import CodeBuilder
+
+    class IF(enum.IntFlag):
+        A = 1
+        B = 2
+
+    class FL(enum.Flag):
+        R = 1
+        W = 2
+
+    class E(enum.Enum):
+        X = "x"
+        Y = 3
+
+    class IE(enum.IntEnum):
+        P = 1
+        Q = 2
+
+    class NT(typing.NamedTuple):
+        a: int
+        b: str = "s"
+
+    @dataclasses.dataclass
+    class K:
+        x: int = 0
+
+    kinds = {
+        "int": (7, 8), "zero": (0, 1), "str": ("it's", "x"), "empty-str": ("", "x"), "bool": (True, False), "float": (1.5, 2.5), "inf": (float("inf"), 1.0),
+        "tuple": ((1, "a"), (1, "b")), "empty-tuple": ((), (1,)), "tuple-of-dates": ((datetime.date(2020, 1, 2),), (datetime.date(2020, 1, 3),)),
+        "IntFlag": (IF.A, IF.B), "IntFlag-combination": (IF.A | IF.B, IF.A), "Flag": (FL.R, FL.W), "Flag-combination": (FL.R | FL.W, FL.R),
+        "Enum": (E.X, E.Y), "IntEnum": (IE.P, IE.Q), "date": (datetime.date(2020, 1, 2), datetime.date(2020, 1, 3)), "Decimal": (decimal.Decimal("1.50"), decimal.Decimal("2")),
+        "NamedTuple": (NT(1), NT(2)), "list": ([1, 2], [3]), "dict": ({"a": 1}, {}), "bytes": (b"ab", b""), "frozenset": (frozenset({1}), frozenset()),
+    }
+    obs = []
+    for kind, (v, other) in kinds.items():
+        b = CodeBuilder(K)
+        b.reset()
+        oid = f"{pid}.S14[get_field_default_literal/{kind}]/guard"
+        try:
+            lit = b.get_field_default_literal(v)
+            L = eval(lit, dict(b.globals))
+        except Exception as e:  # noqa
+            obs.append(dict(id=oid, status="refuted", unit="CodeBuilder.get_field_default_literal", detail=f"default {v!r}: {type(e).__name__}: {e}"[:300]))
+            continue
+        probs = []
+        import copy
+
+        for w in (v, copy.deepcopy(v), other, None, 0):
+            try:
+                got, want = bool(w != L), bool(w != v)
+            except Exception as e:  # noqa
+                probs.append(f"comparison with {w!r} raised {type(e).__name__}")
+                continue
+            if got != want:
+                probs.append(f"default {v!r} -> literal {lit} (= {L!r}): value {w!r} != literal is {got}, value != default is {want}")
+        w_ = None
+        if probs:
+            w_ = {"confirmed": True, "source": "", "input": f"CodeBuilder(K).get_field_default_literal({v!r})", "got": lit, "why": probs[0]}
+            w_.pop("source")
+        obs.append(dict(id=oid, status="proved" if not probs else "refuted", unit="CodeBuilder.get_field_default_literal", backend="enumeration",
+                        detail="; ".join(probs)[:500], witness=w_))
+    return obs
